@@ -131,7 +131,10 @@ class PrintWorker:
                 sig = vlib.crash_signature(err)
                 if rc is not None and rc < 0:
                     sig = "signal %d; %s" % (-rc, sig)
-                answers.append({"crash": sig + ("" if cur == cid else " [side file names request %s]" % cur), "kind": "crash"})
+                cf = cur.split()
+                phase = cf[1] if len(cf) > 1 and cf[0] == cid else "?"
+                answers.append({"crash": sig + ("" if cf[:1] == [cid] else " [side file names request %s]" % cur),
+                                "kind": "crash", "phase": phase})
             else:
                 self._reap(kill=True)
                 self.restarts += 1
@@ -302,8 +305,15 @@ def judge(worker, wd, tag, items, lock=None):
         if "crash" in a:
             if a["kind"] == "skipped":
                 verdicts[i] = {"status": "inconclusive", "kind": "skipped", "what": a["crash"]}
+            elif a.get("phase") == "parse0":
+                # OCCA crashed while parsing the generated text: the program is not one "that OCCA parses successfully"
+                # (front-end robustness is property C16); counted as rejected, with the crash site as diagnostic
+                verdicts[i] = {"status": "rejected", "kind": "rejected", "what": "CRASH while parsing: " + a["crash"][:140],
+                               "diag": a["crash"]}
             else:
-                verdicts[i] = {"status": "fail", "kind": a["kind"], "what": "OCCA %s while parsing/printing: %s" % (a["kind"], a["crash"])}
+                verdicts[i] = {"status": "fail", "kind": a["kind"],
+                               "what": "OCCA %s in phase %s (print0 = printing the parsed program, parse1/print1 = re-parsing / "
+                                       "re-printing the printed text): %s" % (a["kind"], a.get("phase", "?"), a["crash"])}
             continue
         if not a["ok0"]:
             verdicts[i] = {"status": "rejected", "kind": "rejected", "what": reject_class(a["diag"]), "diag": a["diag"][:600]}
@@ -664,7 +674,7 @@ def run(prop, tier, replay, t0):
                 return
             descs = []
             for _ in range(bsize):
-                d = G.program(rnd, avoid)
+                d = G.program(rnd, avoid, (3, 7))
                 d["expect"] = G.check_program(d)
                 descs.append(d)
             texts = [G.render_program(d) for d in descs]
